@@ -142,7 +142,7 @@ func (s *sched) stall(c int) {
 		if l == 0 || cur-base >= need {
 			return
 		}
-		if time.Since(t0) > 10*time.Second {
+		if time.Since(t0) > 30*time.Second {
 			if cur == base {
 				if site := zlintLockBlocked(); site != "" {
 					s.mu.Lock()
@@ -169,14 +169,24 @@ func zlintLockBlocked() string {
 		if !(strings.Contains(hdr, "sync.Mutex.Lock") || strings.Contains(hdr, "sync.RWMutex.") || strings.Contains(hdr, "semacquire")) {
 			continue
 		}
-		for _, ln := range strings.Split(g, "\n") {
-			if i := strings.Index(ln, "github.com/zmap/zlint/v3/lint."); i >= 0 && !strings.HasPrefix(ln, "\t") {
-				f := ln[i+len("github.com/zmap/zlint/v3/"):]
+		// the lock must be one that zlint's registry code itself is taking: the first frame below those of
+		// sync / runtime is zlint's (a harness lock taken further up the same stack - the stalled writer's own
+		// bookkeeping sits above WriteJSON - is not that)
+		for _, ln := range strings.Split(g, "\n")[1:] {
+			if strings.HasPrefix(ln, "\t") || ln == "" {
+				continue
+			}
+			if strings.HasPrefix(ln, "sync.") || strings.HasPrefix(ln, "runtime.") || strings.HasPrefix(ln, "internal/") || strings.HasPrefix(ln, "sync/") {
+				continue
+			}
+			if i := strings.Index(ln, "github.com/zmap/zlint/v3/lint."); i == 0 {
+				f := ln[len("github.com/zmap/zlint/v3/"):]
 				if j := strings.LastIndex(f, "("); j > 0 {
 					f = f[:j]
 				}
 				return f
 			}
+			break
 		}
 	}
 	return ""
